@@ -2756,6 +2756,11 @@ def _transition_to_absent(
 ) -> None:
     """Remove any type of entry."""
     if current_stat is None:
+        # Already gone from the work tree; it must still leave the index.
+        try:
+            del index[path]
+        except KeyError:
+            pass
         return
 
     if stat.S_ISDIR(current_stat.st_mode):
